@@ -8,6 +8,7 @@ import (
 	"bytes"
 	"fmt"
 	"io"
+	"time"
 
 	"github.com/markkurossi/mpc/ot"
 	"github.com/markkurossi/mpc/p2p"
@@ -157,7 +158,8 @@ type side struct {
 	eofSeen            bool
 	eofErr             string
 	waiters            []*rt.Task
-	drain              bool // fault mode: after a mismatch keep emptying the transport so the sender is never blocked by us
+	drain              bool                  // fault mode: after a mismatch keep emptying the transport so the sender is never blocked by us
+	pause              map[int]time.Duration // before receive #i the application is busy for that long
 }
 
 func (s *side) signal() {
@@ -203,6 +205,10 @@ func (s *side) doRecv() {
 	var ld ot.LabelData
 	c := s.conn
 	for i, o := range s.recvOps {
+		if d, ok := s.pause[i]; ok {
+			rt.Reach("receiver.busy-before-a-receive")
+			rt.Sleep(d)
+		}
 		bad := ""
 		switch o.Kind {
 		case opByte:
@@ -353,6 +359,17 @@ func (w *world) Run(t *rt.Tape, trace bool) *core.Result {
 	b.sendOps = genOps(t, 1, smallBA, first != 1)
 	a.recvOps = b.sendOps
 	b.recvOps = a.sendOps
+	// In a quarter of the cases a receiving application is busy for a second, most of a minute
+	// or ten minutes before one or two of its receives (it computes, it waits for its user): the
+	// sender then sits on full buffers for that long.
+	for _, sd := range []*side{a, b} {
+		if len(sd.recvOps) > 0 && t.Choose(rt.SGen, 4) == 0 {
+			sd.pause = map[int]time.Duration{}
+			for k := 0; k <= t.Choose(rt.SGen, 2); k++ {
+				sd.pause[t.Choose(rt.SGen, len(sd.recvOps))] = []time.Duration{time.Second, 45 * time.Second, 10 * time.Minute}[t.Choose(rt.SGen, 3)]
+			}
+		}
+	}
 	// Fault mode (1 case in 6): one Write of A's transport fails once without
 	// moving anything (a write timeout); the transport works again afterwards.
 	// The stream then has a hole, so the only claim left is the narrow one that
